@@ -314,9 +314,9 @@ type c18PathCase struct {
 
 type c18PathResult struct {
 	Viols    []c18Viol
-	Inconcl  string // the harness could not build / observe the case
-	Mismatch string // the concrete HMAC outputs are not of the classes the row speaks of (concretisation failed)
-	Steps    int    // steps compared field by field
+	Inconcl  string   // the harness could not build / observe the case
+	Mismatch string   // the concrete HMAC outputs are not of the classes the row speaks of (concretisation failed)
+	Steps    int      // steps compared field by field
 	Drift    []string // the code departs from the specification in a way the property text does not forbid
 	Info     map[string]any
 }
